@@ -649,8 +649,8 @@ func (h *VHist) RawInvariants(datasets []string) []string {
 			}
 		}
 		// version records per dataset
-		versions := map[string]bool{}                // entity key
-		newest := map[uint32]map[uint64]string{}     // ds -> rid -> newest version key
+		versions := map[string]bool{}            // entity key
+		newest := map[uint32]map[uint64]string{} // ds -> rid -> newest version key
 		rids := map[uint64]bool{}
 		scan(EntityIDToJSONIndexID, func(k, v []byte) {
 			ds := binary.BigEndian.Uint32(k[10:])
